@@ -5,7 +5,7 @@ sys.path.insert(0, os.path.join(os.path.dirname(os.path.abspath(__file__)), '..'
 import vcommon as V
 import e2e
 
-PROPS = ['props/C06.v', 'props/C06_pipeline.v', 'props/Pipeline.v', 'props/C06_src.v']
+PROPS = ['props/C06.v', 'props/C06_pipeline.v', 'props/Pipeline.v', 'props/C06_src.v', 'props/Lint.v']
 ASSUMPTIONS = [
     "time.Parse / time.Date / time.Until of the Go standard library (go1.23) are modelled by hand for the single layout "
     "\"2006-01-02T15:04:05Z\" (model/Expiry.v), not assumed; the model is compared with the Go code on every run "
